@@ -78,9 +78,24 @@ fn state_probes(w: &World, cx: &mut Ctx) {
     }
 }
 
+fn clone_from_base() -> &'static Board {
+    // a board in check, with a pin and an EP file: whatever `clone_from` forgets to copy stays visible
+    static BASE: std::sync::OnceLock<Board> = std::sync::OnceLock::new();
+    BASE.get_or_init(|| Board::from_fen("4k3/8/8/8/8/8/4Q3/3K4 b - - 5 9", false).unwrap_or_default())
+}
+
 /// The per-state oracle of the property under check.
 pub fn observe(w: &mut World, cx: &mut Ctx) -> R {
     let key = w.model.key();
+    // every other state (by position key) is observed - and the history continued - on a copy made with
+    // `clone_from` over an unrelated board: a copy of an accepted board is that board
+    if key & 2 == 2 {
+        let mut c = clone_from_base().clone();
+        if guard(|| c.clone_from(&w.real)).is_ok() {
+            cx.hit("observed_on_clone_from_copy");
+            w.real = c;
+        }
+    }
     cx.stats.oracle_evals += 1;
     if key != w.boot_key {
         cx.stats.pending_keys.push(key);
@@ -261,6 +276,13 @@ fn observe_c07(w: &mut World, cx: &mut Ctx) -> R {
     if got_s != want_s {
         cx.fail("C07/shredder-text-not-canonical".into(), format!("got {:?} expected {:?}", got_s, want_s))?;
     }
+    // a sign flag asks for nothing on a non-numeric value: still "formatting as Shredder-FEN" / "as FEN"
+    // (width, fill and precision are left alone: padding a whole record is a legitimate reading of them)
+    if let Ok((a, b)) = guard(|| (format!("{:+#}", w.real), format!("{:+}", w.real))) {
+        if a != got_s || b != format!("{}", w.real) {
+            cx.fail("C07/text-depends-on-sign-flag".into(), format!("{{:+#}} gives {:?}, {{:#}} gives {:?}", a, got_s))?;
+        }
+    }
     for e in [Entry::Sfen, Entry::FromStr] {
         match parse_via(&got_s, e) {
             Ok(Ok(b)) => {
@@ -308,13 +330,35 @@ fn observe_c07(w: &mut World, cx: &mut Ctx) -> R {
             cx.fail("C07/eq-iff-text".into(), format!("boards equal: {}, texts equal: {} ({:?} vs {:?})", eq, teq, t, got_s))?;
         }
     }
-    // near neighbours: same position with another clock value
+    // near neighbours (their texts differ, so the boards must not compare equal): another clock value,
+    // the EP file cleared or added, one right removed
     {
+        let mut near: Vec<(Model, &str)> = vec![];
         let mut m2 = w.model.clone();
         m2.half = if m2.half == 0 { 1 } else { m2.half - 1 };
-        if let Some(b2) = recover_text(&m2) {
-            if b2 == w.real {
-                cx.fail("C07/eq-iff-text".into(), format!("boards with different clocks compare equal at {}", got_s))?;
+        near.push((m2, "clocks"));
+        let mut m3 = w.model.clone();
+        if m3.ep.is_some() {
+            m3.ep = None;
+            near.push((m3, "en-passant"));
+        } else if let Some(f) = (0..8u8).find(|&f| {
+            let mut t = w.model.clone();
+            t.ep = Some(f);
+            t.unsound().is_none()
+        }) {
+            m3.ep = Some(f);
+            near.push((m3, "en-passant"));
+        }
+        if let Some((c, wing)) = (0..2).flat_map(|c| (0..2).map(move |x| (c, x))).find(|&(c, x)| w.model.rights[c][x].is_some()) {
+            let mut m4 = w.model.clone();
+            m4.rights[c][wing] = None;
+            near.push((m4, "rights"));
+        }
+        for (mm, what) in near {
+            if let Some(b2) = recover_text(&mm) {
+                if b2 == w.real && format!("{:#}", b2) != got_s {
+                    cx.fail(format!("C07/eq-iff-text/{}", what), format!("boards with different Shredder texts compare equal: {:?} vs {:?}", format!("{:#}", b2), got_s))?;
+                }
             }
         }
     }
